@@ -247,6 +247,109 @@ def r26_sign_prop(ctx):
                       "combinations %s under the test `%s` (e.g. -00:30 "
                       "needs the minute component)" % (f.qual, bad, U(test)),
                       props)
+    # ... and the sign of the year: '-' exactly for a negative year (year 0
+    # is written +000000)
+    for q in ("data.TimePoint.year_sign",):
+        f = ctx.try_func(q)
+        if f is None:
+            continue
+        sels = _sign_selectors(f)
+        key_ = ctx.fkey(f, None, "year-sign")
+        if not sels:
+            rep.undecided(rule, key_, f.loc(), "%s: no '-'/'+' selection "
+                          "found" % f.qual, ("C07", "C08"))
+            continue
+        for node, test, true_is_minus in sels:
+            rep.anchor(rule, "sign renderers")
+            bad = []
+            for y in (-2000, -1, 0, 1, 2000):
+                class _Y(ast.NodeTransformer):
+                    def visit_Attribute(self, n_):
+                        if n_.attr in ("_year", "year"):
+                            return ast.copy_location(
+                                ast.Constant(value=y), n_)
+                        return self.generic_visit(n_)
+                try:
+                    v = bool(ctx.folder.fold(ast.fix_missing_locations(
+                        _Y().visit(clone(test))), f.module, f.cls, {}))
+                except NotConst:
+                    bad = None
+                    break
+                minus = v if true_is_minus else not v
+                if minus != (y < 0):
+                    bad.append(y)
+            if bad is None:
+                rep.undecided(rule, key_, f.loc(node),
+                              "the year-sign test `%s` is not evaluable" %
+                              U(test)[:50], ("C07", "C08"))
+                continue
+            rep.check(not bad, rule, key_, f.loc(node),
+                      "'-' is written exactly for a negative year "
+                      "(evaluated for -2000, -1, 0, 1, 2000)",
+                      "%s writes the wrong sign for the year(s) %s under the "
+                      "test `%s` (year 0 is +000000)" % (f.qual, bad,
+                                                         U(test)),
+                      ("C07", "C08"))
+    # ... and the default dump format: without expanded digits only a
+    # negative year cannot be written (year 0 is 0000); with them the sign
+    # is '-' exactly for a negative year
+    gf = ctx.try_func("data.TimePoint._get_dump_format")
+    if gf is not None:
+        from ..flow import path_conds as _pcy
+
+        def _eval_year(test, y):
+            class _Y(ast.NodeTransformer):
+                def visit_Attribute(self, n_):
+                    if n_.attr in ("_year", "year"):
+                        return ast.copy_location(ast.Constant(value=y), n_)
+                    return self.generic_visit(n_)
+            return bool(ctx.folder.fold(ast.fix_missing_locations(
+                _Y().visit(clone(test))), gf.module, gf.cls, {}))
+        for r_ in walk_no_nested(gf.node):
+            if not (isinstance(r_, ast.Raise) and r_.exc is not None and
+                    "OverflowError" in U(r_.exc)):
+                continue
+            rep.anchor(rule, "sign renderers")
+            key_ = ctx.fkey(gf, None, "year-refusal")
+            bad, unknown = [], False
+            for y in (-1, 0, 1, 9999):
+                fires = True
+                for t, pol in _pcy(r_):
+                    parts = t.values if isinstance(
+                        t, ast.BoolOp) and isinstance(t.op, ast.And) and \
+                        pol else [t]
+                    for c in parts:
+                        if not any(isinstance(x, ast.Attribute) and
+                                   x.attr in ("_year", "year")
+                                   for x in ast.walk(c)):
+                            continue        # configuration / presence
+                        if isinstance(c, ast.Compare) and isinstance(
+                                c.ops[0], (ast.Is, ast.IsNot)):
+                            continue
+                        try:
+                            v = _eval_year(c, y)
+                        except NotConst:
+                            unknown = True
+                            continue
+                        if isinstance(t, ast.BoolOp) and not pol:
+                            unknown = True
+                            continue
+                        if v != pol:
+                            fires = False
+                if fires != (y < 0):
+                    bad.append(y)
+            if unknown:
+                rep.undecided(rule, key_, gf.loc(r_), "the refusal of a "
+                              "year by the default dump format is not "
+                              "evaluable", ("C08",))
+            else:
+                rep.check(not bad, rule, key_, gf.loc(r_),
+                          "without expanded digits exactly the negative "
+                          "years are refused (evaluated for -1, 0, 1, 9999)",
+                          "TimePoint._get_dump_format refuses / accepts the "
+                          "wrong years %s: without expanded year digits "
+                          "exactly the negative years cannot be written "
+                          "(0000 can)" % bad, ("C08", "C07"))
     # (b) parsing: both zone components negated under '-' ----------------------
     rule = "R26.sign-parse"
     f = ctx.func("parsers.TimePointParser.process_time_zone_info")
@@ -964,6 +1067,30 @@ def r27_dur_table(ctx):
               "the duration regexes do not read %s as one number although "
               "Duration.__str__ writes a small or large float component in "
               "exactly that form (str(5e-05) is '5e-05')" % unread[:4], P)
+    # ... and whole-number components of any length, alone and before a
+    # time part (str() writes an int with all its digits)
+    unread_i = []
+    for unit, des in (("years", "Y"), ("months", "M"), ("days", "D"),
+                      ("weeks", "W")):
+        for num in ("0", "7", "12", "365", "10000"):
+            for tail in ("", "T1H") if unit != "weeks" else ("",):
+                text = "P%s%s%s" % (num, des, tail)
+                hit = False
+                for r in regs:
+                    if isinstance(r, Regex):
+                        m_ = re.compile(r.pattern, r.flags).search(text)
+                        if m_ and m_.groupdict().get(unit) == num:
+                            hit = True
+                            break
+                if not hit:
+                    unread_i.append(text)
+    rep.check(not unread_i, rule,
+              ctx.mkey("parsers", "DURATION_REGEXES:integer-spellings"),
+              "parsers.py", "whole-number year/month/day/week components of "
+              "one to five digits are read back whole, with and without a "
+              "time part",
+              "the duration regexes do not read %s (a whole-number component "
+              "as Duration.__str__ writes it)" % unread_i[:5], P)
     # the sign is taken out before any field is written: every return that
     # formats a field lies behind the guard returning "-" + str(abs(self))
     from ..flow import path_conds
@@ -1394,6 +1521,25 @@ def r29_strf_table(ctx):
                       "parser_spec.py", "the directive splitter / token "
                       "test are not compiled regular expressions this rule "
                       "can fold", P)
+    # a strftime format given to a TimePoint reaches the dumper's strftime
+    # itself (dump() would swallow the refusal of an unknown directive and
+    # fall back to reading the text as an ISO 8601 pattern)
+    sf = ctx.try_func("data.TimePoint.__str__")
+    if sf is not None and "strftime_format" in sf.params:
+        via = []
+        for n in walk_no_nested(sf.node):
+            if isinstance(n, ast.Call) and any(
+                    isinstance(a, ast.Name) and a.id == "strftime_format"
+                    for a in list(n.args) + [k.value for k in n.keywords]):
+                via.append(U(n.func))
+        rep.check(bool(via) and all(v.split(".")[-1] == "strftime"
+                                    for v in via), rule,
+                  ctx.fkey(sf, None, "strftime-route"), sf.loc(),
+                  "a strftime format is handed to the dumper's strftime()",
+                  "TimePoint.__str__ hands the strftime format to %s: only "
+                  "TimePointDumper.strftime refuses unsupported directives "
+                  "with the library's error (dump() catches it and renders "
+                  "the text as an ISO 8601 pattern)" % via, P)
     # both directions split formats with the same regex
     fs = ctx.func("dumpers.TimePointDumper.strftime")
     fp = ctx.func("parsers.TimePointParser.strptime")
